@@ -368,6 +368,12 @@ def run(ctx):
                 continue
             check_sequence(ctx, list(seq), f"exhaustive depth<={depth}")
     ctx.exhaustive[f"all op sequences up to depth {depth} over {len(alpha)} ops (3 species, 2 rules)"] = True
+    if not ctx.quick:
+        # depth 5 and 6: uniformly sampled sequences over the same alphabet
+        for _ in range(40000):
+            d = ctx.rng.choice([5, 5, 6])
+            check_sequence(ctx, [ctx.rng.choice(alpha) for _ in range(d)], "sampled depth 5-6")
+        ctx.count("sampled_deep_sequences", 40000)
     ctx.count("alphabet_size", 0)
     # random long histories
     n_rand = 300 if ctx.quick else 6000
